@@ -3,6 +3,11 @@ package props
 import (
 	"fmt"
 	"math/rand"
+	"os"
+	"os/exec"
+	"path/filepath"
+	"strconv"
+	"strings"
 	"sync"
 
 	"hpverif/internal/blobprog"
@@ -76,6 +81,7 @@ func init() {
 		NumCases: func(env *core.Env) int { a, b, c := c19blocks(env); return a + b + c },
 		Batch:    8,
 		Run:      c19run,
+		PreParent: c19wasm,
 		Describe: func(env *core.Env, idx int) any { k, ps := c19programs(env, idx); return fmt.Sprintf("%s block of %d programs", k, len(ps)) },
 		Exhaustive: func(env *core.Env) bool { return false },
 		Floor: func(env *core.Env, agg *core.Agg) string {
@@ -127,4 +133,64 @@ func c19run(env *core.Env, idx int) core.CaseResult {
 		res.Sample = map[string]any{"kind": kind, "program": ps[len(ps)/2].String()}
 	}
 	return res
+}
+
+// c19wasm runs the same program generator against the typed-array blob under GOOS=js (node), from the parent
+// (it needs the Go toolchain). Expectations are relaxed exactly as the property states (errors are not demanded
+// for bad arguments, only no panic and no modification).
+func c19wasm(env *core.Env) []core.CaseResult {
+	var res core.CaseResult
+	res.Idx = -1
+	res.Key = "wasm"
+	goroot, err := exec.Command("go", "env", "GOROOT").Output()
+	runner := filepath.Join(strings.TrimSpace(string(goroot)), "misc", "wasm", "go_js_wasm_exec")
+	if _, nerr := exec.LookPath("node"); err != nil || nerr != nil {
+		res.Inconclusive = "GOOS=js run not possible: node or the Go wasm runner is missing"
+		return []core.CaseResult{res}
+	}
+	args := []string{"test", "-tags", "verif", "-count=1", "-v", "-exec=" + runner}
+	if mf := os.Getenv("HPVERIF_MODFILE"); mf != "" {
+		args = append(args, "-modfile="+mf)
+	}
+	args = append(args, "./jsblob/")
+	cmd := exec.Command("go", args...)
+	cmd.Dir = c20harnessDir()
+	cmd.Env = append(os.Environ(), "GOOS=js", "GOARCH=wasm", "GOFLAGS=-mod=mod", "GOPROXY=off", "GOSUMDB=off", "GOTOOLCHAIN=local",
+		"VERIF_SEED="+strconv.FormatInt(env.Seed, 10), "C19_JS_RANDOM="+strconv.Itoa(env.Pick(3000, 40000)))
+	out, rerr := cmd.CombinedOutput()
+	seenStats := false
+	for _, l := range strings.Split(string(out), "\n") {
+		switch {
+		case strings.HasPrefix(l, "C19ISSUE "):
+			f := strings.SplitN(strings.TrimPrefix(l, "C19ISSUE "), "\t", 2)
+			detail := ""
+			if len(f) > 1 {
+				detail = f[1]
+			}
+			res.Violate(f[0], "[GOOS=js, typed-array blob] "+detail, nil)
+		case strings.HasPrefix(l, "C19JS "):
+			seenStats = true
+			for _, kv := range strings.Fields(l)[1:] {
+				if p := strings.SplitN(kv, "=", 2); len(p) == 2 {
+					n, _ := strconv.Atoi(p[1])
+					res.Count("wasm_"+p[0], n)
+					if p[0] == "programs" {
+						res.Evals = n
+					}
+				}
+			}
+		}
+	}
+	if rerr != nil && len(res.Violations) == 0 {
+		if strings.Contains(string(out), "panic:") || strings.Contains(string(out), "FAIL") {
+			res.Violate("C19|idbblob|process|crash", "the GOOS=js run of the blob programs crashed or failed:\n"+tailString(string(out), 1500), nil)
+		} else {
+			res.Inconclusive = "GOOS=js run failed: " + rerr.Error() + " " + tailString(string(out), 300)
+		}
+	} else if !seenStats && len(res.Violations) == 0 {
+		res.Inconclusive = "GOOS=js run produced no statistics line"
+	}
+	res.Nontrivial = seenStats
+	res.Sample = map[string]any{"wasm": "same generator under GOOS=js GOARCH=wasm via node", "output_tail": tailString(string(out), 200)}
+	return []core.CaseResult{res}
 }
